@@ -323,6 +323,14 @@ def parse(res, stdout, stderr, anchors):
                     break
             name = fkey if fkey.startswith("lemma:") else "%s/safety@\"%s\"" % (fkey, txt[:60])
             tags = []
+        if not tags and clause is not None and clause["kind"] == "hint":
+            # a proof hint that no longer holds leaves every obligation of its function undischarged
+            # (everything after a failed assertion is assumed): attribute it to all their tags
+            u = set(fn["tags"]) if (fn and fn.get("tags")) else set()
+            for c in anchors["clauses"]:
+                if c["owner"] == clause["owner"] and c["kind"] in ("ensures", "invariant"):
+                    u.update(t for t in c["tags"] if t != "KF")
+            tags = sorted(u)
         if not tags:
             tags = list(fn["tags"]) if (fn and fn.get("tags")) else ["C01"]
         key = (name, msg)
